@@ -23,7 +23,8 @@ theorem branch_index_change (fresh : Nat → Nat) (db : List DbNode) (x : BRun)
       applyToIndex db (trackerNodes fresh tr.inner) = idxOf fresh 0 (x.r.out ++ x.r.rest.map .old) ∧
       (trackerFreed tr.inner).Perm
         ((db.filter fun n => decide (n.sep ∉ (oldsOfB x.r.out ++ x.r.rest).map (·.sep))).map (·.bbn)) ∧
-      (delsOf x.evs ≠ [] → trackerNodes fresh tr.inner ≠ []) := by
+      (delsOf x.evs ≠ [] → trackerNodes fresh tr.inner ≠ []) ∧
+      (newsOfB x.r.out ≠ [] → trackerNodes fresh tr.inner ≠ []) := by
   obtain ⟨⟨consumed, hc1, hc2⟩, hins⟩ := hb
   have hsasc : (db.map (·.sep)).Pairwise (· < ·) := (List.pairwise_map).2 hdb
   have hperm : ((consumed ++ (oldsOfB x.r.out ++ x.r.rest)).map (·.sep)).Perm (db.map (·.sep)) := hc2.map _
@@ -105,7 +106,7 @@ theorem branch_index_change (fresh : Nat → Nat) (db : List DbNode) (x : BRun)
         have := List.find?_eq_none.1 hf n hn
         simp [hk] at this
       | some n' => rfl
-  refine ⟨tr, by rw [e1, hlen]; simp, hasc, hx, hcs, ?_, ?_, ?_⟩
+  refine ⟨tr, by rw [e1, hlen]; simp, hasc, hx, hcs, ?_, ?_, ?_, ?_⟩
   · -- the index
     apply idxEnts_inj
     rw [applyToIndex_ents _ _ hdb]
@@ -271,5 +272,27 @@ theorem branch_index_change (fresh : Nat → Nat) (db : List DbNode) (x : BRun)
       rw [List.map_eq_nil_iff] at hempty
       rw [hempty] at this
       cases this
+  · -- an `insert` call leaves an entry
+    intro hne
+    obtain ⟨p, t, hpt⟩ := List.exists_cons_of_ne_nil hne
+    have h1 := hI' p.sep
+    rw [hpt] at h1
+    simp only [newAtB, if_true] at h1
+    cases hi : insV tr.inner p.sep with
+    | none => rw [hi] at h1; cases h1
+    | some y =>
+      unfold insV at hi
+      cases hl : lookupE p.sep tr.inner with
+      | none => rw [hl] at hi; cases hi
+      | some e =>
+        rw [hl] at hi
+        simp only [Option.bind_some] at hi
+        intro hempty
+        unfold trackerNodes at hempty
+        have : (p.sep, e) ∈ tr.inner.filter fun (_, e) => e.inserted.isSome || e.deleted.isSome :=
+          List.mem_filter.2 ⟨mem_of_lookupE hl, by simp [hi]⟩
+        rw [List.map_eq_nil_iff] at hempty
+        rw [hempty] at this
+        cases this
 
 end Nomt.StageGlue
